@@ -411,23 +411,37 @@ def check(pid, tier, seed, replay=None):
     # a broken obligation with no failing input so far: widen the search
     searched = 0
     if broken and not new_viols:
-        sops = [m[0] for m in mismatches]
-        if hasattr(prop, "search_ops"):
-            for k in range(3):
-                sops += list(prop.search_ops(eff_tier, random.Random(rng.random())))
-        else:
-            for k in range(3):
-                sops += list(prop.gen_ops("thorough", random.Random(rng.random())))
+        # bounded in time: the mismatching operations first, then fresh streams with other seeds
+        budget = float(getattr(prop, "SEARCH_BUDGET_S", 90))
+        t_search = time.time()
         sseen = set(ops) - {m[0] for m in mismatches}
-        sops = [o for o in dict.fromkeys(sops) if o not in sseen]
-        searched = len(sops)
-        _, sv = run_ops(prop, sops)
-        for op, o, w in sv:
-            sig = prop.signature(op, w)
-            if sig in known_sigs:
-                known_hit.setdefault(sig, (op, o, w))
-            else:
-                new_viols.setdefault(sig, (op, o, w))
+
+        def candidates():
+            for m in mismatches:
+                yield m[0]
+            for k in range(3):
+                r2 = random.Random(rng.random())
+                gen = prop.search_ops(eff_tier, r2) if hasattr(prop, "search_ops") else prop.gen_ops("thorough", r2)
+                for o in gen:
+                    yield o
+
+        for o in candidates():
+            if time.time() - t_search > budget:
+                notes.append(f"failing-input search stopped after {budget:.0f} s ({searched} operations)")
+                break
+            if o in sseen:
+                continue
+            sseen.add(o)
+            searched += 1
+            out_o = safe_impl(prop, o)
+            w = safe_oracle(prop, o, out_o)
+            if w:
+                sig = prop.signature(o, w)
+                if sig in known_sigs:
+                    known_hit.setdefault(sig, (o, out_o, w))
+                else:
+                    new_viols.setdefault(sig, (o, out_o, w))
+                    break
 
     for sig, (op, o, w) in sorted(known_hit.items()):
         log(f"KNOWN-FINDING: property={pid} {known_sigs[sig]['what']} [{sig}]")
